@@ -8,6 +8,7 @@ import BV.Drive.FFI
 import BV.Drive.Header
 import BV.Drive.Multi
 import BV.Drive.Hasher
+import BV.Drive.MatchFinder
 import BV.Drive.Recoder
 import BV.Drive.Dict
 import BV.Drive.Stream
@@ -24,6 +25,7 @@ def dispatch (line : String) : String :=
   | "header" :: rest => BV.Drive.Header.handle rest
   | "multi" :: rest => BV.Drive.Multi.handle rest
   | "adapters" :: rest => BV.Drive.Adapters.handle rest
+  | "hasher" :: "flm" :: rest => BV.Drive.MatchFinder.handle rest
   | "hasher" :: rest => BV.Drive.Hasher.handle rest
   | "recoder" :: rest => BV.Drive.Recoder.handle rest
   | "dict" :: rest => BV.Drive.Dict.handle rest
